@@ -650,7 +650,17 @@ void TzDevice::doQuery(int c, const Query& q, int opIndex, Verdict& v, Coverage&
     scribbleStack(0x05);
     Ans again = ask(cl.tz, q);
     cov.count("c09.stack_residue_checks");
-    if (!equalAns(r, again)) {
+    // A deterministic difference between the answer of the call that fills the cache and the answer of a call that
+    // hits it (third ask == second ask, both values or both errors) is a history dependence: C08's subject, found by
+    // C08's own check, not reported here. What is reported: answers that keep changing, and an error that turns into
+    // a value or back.
+    bool report = !equalAns(r, again);
+    if (report && r.err == again.err) {
+      scribbleStack(0x01);
+      Ans third = ask(cl.tz, q);
+      if (equalAns(again, third)) { report = false; cov.count("c09.fill_vs_hit_difference_left_to_c08"); }
+    }
+    if (report) {
       v.fail("c09-unstable-answer", fmt("client %d (%s %s): the same %s question asked twice in a row, over different stack residue, "
           "is answered %s and then %s (a result the code never wrote, or an error that does not persist)", c, kindName(d.kind),
           zoneName(d.kind, d.zi), q.kind.c_str(), r.show().c_str(), again.show().c_str()), opIndex);
